@@ -68,3 +68,10 @@ func planSpans(sizes []int, chunk int) []span {
 	}
 	return out
 }
+
+// fixedNow is the default clock reading handed to commands whose result must not depend on it.
+var fixedNow = time.Date(2022, 6, 15, 12, 0, 0, 0, time.UTC)
+
+func dateAt(y, m, d, hh, mm int) time.Time {
+	return time.Date(y, time.Month(m), d, hh, mm, 0, 0, time.UTC)
+}
